@@ -54,7 +54,9 @@ fn to_mapping(m: &M, name: Option<&str>) -> MappingInfo {
         size: (m.end - m.start) as usize,
         system_mapping_info: SystemMappingInfo { start_address: m.start as usize, end_address: m.end as usize },
         offset: 0,
-        permissions: if m.exec { MMPermissions::READ | MMPermissions::EXECUTE | MMPermissions::PRIVATE } else { MMPermissions::READ | MMPermissions::WRITE | MMPermissions::PRIVATE },
+        // (every third executable mapping is EXECUTE-ONLY, `--xp`: execute-only JIT or pkey-protected
+        // code, the legacy vsyscall page - executable all the same)
+        permissions: if m.exec && (m.start >> 12) % 3 == 0 { MMPermissions::EXECUTE | MMPermissions::PRIVATE } else if m.exec { MMPermissions::READ | MMPermissions::EXECUTE | MMPermissions::PRIVATE } else { MMPermissions::READ | MMPermissions::WRITE | MMPermissions::PRIVATE },
         name: name.map(|s| s.into()),
     }
 }
@@ -382,6 +384,9 @@ pub fn run_live(rep: &mut Report, targets: u64) {
         let ex = b.anon(2, 4, 5, Fill::Pattern);
         let nx = b.anon(2, 4, 6, Fill::Pattern);
         let (exa, nxa) = (b.spec.regions[ex].addr, b.spec.regions[nx].addr);
+        // an EXECUTE-ONLY mapping (`--xp` in the memory map)
+        let xo = b.anon(1, 4, 1, Fill::Keep);
+        let xoa = b.spec.regions[xo].addr;
         // an executable FILE mapping directly followed by an inaccessible anonymous reservation (what
         // the dynamic linker leaves behind a library): the writer widens the module over it, but a
         // pointer into the reservation is not a pointer into an executable mapping
@@ -427,6 +432,15 @@ pub fn run_live(rep: &mut Report, targets: u64) {
                 if k + 8 <= pages * PAGE {
                     slots.push((k, v));
                     k += 8 * rng.range(1, 3);
+                }
+            }
+            // pointers into execute-only mappings: the generated one (first and last byte) and the
+            // kernel's legacy vsyscall page when this machine has it (the oracle looks the line up)
+            for v in [xoa, xoa + PAGE - 1, xoa + PAGE, 0xffff_ffff_ff60_0400u64] {
+                if k + 8 <= pages * PAGE {
+                    slots.push((k, v));
+                    k += 8;
+                    rep.count("live_words_aimed_at_execute_only_mappings", 1);
                 }
             }
             let shape = StackShape { pages, sp_offset: sp_off as i64, slots, ..Default::default() };
